@@ -123,11 +123,17 @@ def affine_piece(rng, spec, nvdim, dtype):
         A = A + 1j * rng.normal(size=(nvdim, nd))
         b = b + 1j * rng.normal(size=nvdim)
     pmin, cell = spec.pmin.copy(), spec.cell.copy()
-    ret = gen.pick(rng, ["array", "tuple", "list", "scalar"])
+    ret = gen.pick(rng, ["array", "tuple", "list", "scalar", "reused_buffer"])
+    buf = np.zeros(nvdim, dtype=complex if dtype == "complex" else float)
 
     def fun(p):
         q = (np.atleast_1d(np.asarray(p, dtype=float)) - pmin) / cell
         out = A @ q + b
+        if ret == "reused_buffer":
+            # a function object with a preallocated result array that it fills and returns
+            # on every call: what is stored is the value at the time of the call
+            buf[...] = out
+            return buf
         if nvdim == 1 and ret == "scalar":
             return out[0]
         if ret == "tuple":
@@ -149,9 +155,15 @@ def lookup_piece(rng, spec, nvdim, dtype):
     pmin, cell, nn = spec.pmin.copy(), spec.cell.copy(), spec.n.copy()
     as_scalar = nvdim == 1 and rng.random() < 0.5
 
+    reuse = (not as_scalar) and rng.random() < 0.25
+    buf = np.zeros(nvdim, dtype=table.dtype)
+
     def fun(p):
         q = (np.atleast_1d(np.asarray(p, dtype=float)) - pmin) / cell
         idx = tuple(int(v) for v in np.clip(np.floor(q), 0, nn - 1))
+        if reuse:
+            buf[...] = table[idx]
+            return buf
         return table[idx][0].item() if as_scalar else table[idx].copy()
 
     return Piece("lookup", fun, table.copy(), np.zeros((*n, 1)))
